@@ -105,6 +105,10 @@ def token_lines(tok, i, st):
     if tok == "G":
         # one code line longer than the 4096-byte window the tool uses elsewhere
         return [f"long_{i} = '" + "x" * 5000 + "'"]
+    if tok == "Y":
+        # like X, but the closing line itself ends in a second comment: '*/ code(); /* c */'
+        mid = f"{multi[1]} SPDX-License-Identifier: ISC".strip() if multi[1] else "SPDX-License-Identifier: ISC"
+        return [multi[0], (" " if multi[1] else "") + mid, f"{multi[2]} after_terminator_{i} = {i}; {multi[0]} c {multi[2].strip()}", f"later_{i} = {i}"]
     if tok == "X":
         mid = f"{multi[1]} SPDX-License-Identifier: ISC".strip() if multi[1] else "SPDX-License-Identifier: ISC"
         return [multi[0], (" " if multi[1] else "") + mid, f"{multi[2]} after_terminator_{i} = {i}", f"later_{i} = {i} {multi[0]} c {multi[2].strip()}"]
@@ -174,6 +178,13 @@ def cases(tier, seed):
             for ending in ("\n", "\r\n"):
                 for replace in (True, False):
                     yield {"style": name, "seq": s, "prefix": "hashbang", "ending": ending, "final": True, "replace": replace}
+    for name in all_styles(tier):
+        if name in X_STYLES:
+            for s in ("Y", "CY", "YC", "YH", "HY", "OY", "BY"):
+                for ending in ("\n", "\r\n"):
+                    for final in (True, False):
+                        for replace in (True, False):
+                            yield {"style": name, "seq": s, "prefix": "none", "ending": ending, "final": final, "replace": replace}
     for name in all_styles(tier):
         for s in ("G", "GH", "HG", "GC", "CG", "OGH", "GBH", "U", "QU", "QCU", "QBU", "CQU", "QUC", "UQ", "QQU", "QOU",
                   "N", "CN", "NC", "HN", "HCN", "NH", "CNH", "ON", "BN", "NN"):
@@ -343,9 +354,9 @@ def evaluate(c) -> R:
                 if t not in middle:
                     r.violation(f"new-tag-outside-header|{sig}", f"{label}: {t!r} not inside the header block; new file {new_n!r}")
             for i, tok in enumerate(seq):
-                if tok in "CIFSXGQNR" and not (h_lo <= i <= h_up):
-                    body = token_lines(tok, i, st)[-1 if tok == "X" else (1 if tok == "N" else 0)].strip()
-                    if body in middle or (tok == "X" and f"after_terminator_{i} = {i}" in middle):
+                if tok in "CIFSXYGQNR" and not (h_lo <= i <= h_up):
+                    body = token_lines(tok, i, st)[-1 if tok in "XY" else (1 if tok == "N" else 0)].strip()
+                    if body in middle or (tok in "XY" and f"after_terminator_{i} = {i}" in middle):
                         r.violation(f"body-line-inside-header|{sig}", f"{label}: body line {body!r} ended up inside the header block {middle!r}")
             for line in middle.split("\n"):
                 s = line.strip()
